@@ -99,6 +99,15 @@ fn c01_family<S: Sch>(t: Tier, seed: u64, out: &mut Vec<Entry>) {
             add("1p1z-hide1-bound", mk(vec![PolySpec::new(len).hide(1).bound(len - 1)], 1), Mode::Single);
         }
     }
+    if S::HIDING && name != "hyrax" {
+        // one opening that mixes hiding and non-hiding polynomials, in both orders
+        let mut c = mk(vec![PolySpec::new(2).conc().hide(1), PolySpec::new(2).conc()], 1);
+        c.rng_nonzero = true;
+        add("2p1z-hiding-then-plain", c, Mode::Single);
+        let mut c = mk(vec![PolySpec::new(2).conc(), PolySpec::new(2).conc().hide(1)], 1);
+        c.rng_nonzero = true;
+        add("2p1z-plain-then-hiding", c, Mode::Batch);
+    }
     if S::BOUNDS {
         add("1p1z-bound-eq", mk(vec![PolySpec::new(len).bound(len - 1)], 0), Mode::Single);
         if !quick {
@@ -127,6 +136,12 @@ fn c01_family<S: Sch>(t: Tier, seed: u64, out: &mut Vec<Entry>) {
     {
         let c = mk(vec![PolySpec::new(2)], 0).points(2, vec![(0, 0), (0, 1)]);
         add("1p2z-alias-batch", c, Mode::Batch);
+    }
+    if matches!(name, "ligero-uni" | "ligero-ml") {
+        // parameters without the well-formedness check, two operations on one sponge
+        let mut c = mk(vec![PolySpec::new(2).conc(), PolySpec::new(2).conc()], 0).points(2, vec![(0, 0), (1, 1)]);
+        c.sz.ligero.2 = false;
+        add("2p2z-no-wellformedness", c, Mode::Single);
     }
 }
 
@@ -232,6 +247,7 @@ where
         add("label-drop", mk(vec![PolySpec::new(2).bound(d1)], Some(vec![d1, d2])), Box::new(move |c| c04::verifier_side::<S>(c, Attack::LabelDrop, false)), false);
         add("twin-relabel", mk(vec![PolySpec::new(2).bound(d1)], Some(vec![d1, d2])), Box::new(move |c| c04::verifier_side::<S>(c, Attack::Relabel(d2), true)), true);
         if name == "marlin" {
+            add("shift-identity", mk(vec![PolySpec::new(sup + 1)], Some(vec![d1, d2])), Box::new(move |c| c04::verifier_side::<S>(c, Attack::ShiftIdentity(d1), false)), false);
             add("shift-drop", mk(vec![PolySpec::new(2).bound(d1)], Some(vec![d1, d2])), Box::new(move |c| c04::verifier_side::<S>(c, Attack::ShiftDrop, false)), false);
             add("shift-swap", mk(vec![PolySpec::new(2).bound(d1), PolySpec::new(2).conc().bound(d1)], Some(vec![d1, d2])), Box::new(move |c| c04::verifier_side::<S>(c, Attack::ShiftSwap, false)), false);
         }
@@ -281,6 +297,11 @@ fn c11_family<S: Sch>(t: Tier, seed: u64, out: &mut Vec<Entry>) {
         let sup = std_size::<S>(t, 0).supported;
         add("hist-ob-bounds", mk(vec![PolySpec::new(2).conc().bound(sup - 1), PolySpec::new(2).conc()], 2, two.clone()), Box::new(|c| c11::lockstep::<S>(c, &[Op::Open(1), Op::Batch])), false);
     }
+    if matches!(name, "ligero-uni" | "ligero-ml") {
+        let mut c = mk(conc(2), 2, two.clone());
+        c.sz.ligero.2 = false;
+        add("hist-oo-no-wellformedness", c, Box::new(|c| c11::lockstep::<S>(c, &[Op::Open(0), Op::Open(1)])), false);
+    }
     if name != "hyrax" {
         // rejection under another transcript (concrete non-constant polynomials; Hyrax accepts any claim, see C02)
         let mut c = mk(conc(1), 1, vec![(0, 0)]);
@@ -316,6 +337,7 @@ fn c05_family<S: Sch>(t: Tier, seed: u64, out: &mut Vec<Entry>) {
     add("equiv-2p2z-cross", mk(2, 2, vec![(0, 0), (1, 0), (0, 1), (1, 1)]), Box::new(|c| c05::equiv::<S>(c, 3, false)));
     add("equiv-1p2z", mk(1, 2, vec![(0, 0), (0, 1)]), Box::new(|c| c05::equiv::<S>(c, 3, false)));
     add("equiv-honest-3p3z", mk(3, 3, vec![(0, 0), (1, 0), (1, 1), (2, 1), (2, 2), (0, 2)]), Box::new(|c| c05::equiv::<S>(c, 2, true)));
+    add("equiv-1p3z", mk(1, 3, vec![(0, 0), (0, 1), (0, 2)]), Box::new(|c| c05::equiv::<S>(c, 4, false)));
     if !quick {
         add("equiv-3p3z", mk(3, 3, vec![(0, 0), (1, 0), (1, 1), (2, 1), (2, 2), (0, 2)]), Box::new(|c| c05::equiv::<S>(c, 4, false)));
     }
@@ -389,7 +411,9 @@ pub fn catalogue(prop: &str, t: Tier, seed: u64) -> Vec<Entry> {
     catalogue_inner(prop, t, seed, &mut out);
     if deep {
         for en in out.iter_mut() {
-            en.lim.deep_first = true;
+            // completeness-style configurations keep the breadth-first order
+            let honest = en.id.contains("/honest") || en.id.contains("/hist-") || en.id.contains("equiv-honest") || en.id.contains("admit-");
+            en.lim.deep_first = !honest;
         }
     }
     out
@@ -660,6 +684,11 @@ fn catalogue_inner(prop: &str, t: Tier, seed: u64, out: &mut Vec<Entry>) {
                 if quick { en.lim.wall_s = 60.0; }
                 out.push(en);
             }
+            {
+                let mut en = e("operators/add-assign".into(), t, "accumulator, operand, scalars, all blinding coefficients", "kzg10::Commitment += (f,&D); kzg10/marlin Randomness += (f,&R), += &R; 3 coefficients".into(), move || c08::add_operators(seed));
+                en.funcs = vec!["kzg10::Commitment::add_assign", "kzg10::Randomness::add_assign", "marlin_pc::Randomness::add_assign"];
+                out.push(en);
+            }
             for nv in if quick { vec![2usize] } else { vec![2usize, 4] } {
                 let c = mk(Size::mv(nv, 1, 0), vec![PolySpec::new(1)]);
                 let c2 = c.clone();
@@ -904,6 +933,11 @@ fn catalogue_inner(prop: &str, t: Tier, seed: u64, out: &mut Vec<Entry>) {
                 en.funcs = f.clone();
                 out.push(en);
             }
+            {
+                let mut en = e("distance/parameter-sets".into(), t, "nothing (input-free)", "Ligero rho_inv 2..16, Brakedown defaults and four custom (beta, rho_inv) pairs".into(), move || c13::distances(seed));
+                en.funcs = f.clone();
+                out.push(en);
+            }
             use ark_poly_commit::linear_codes::{MultilinearBrakedown, MultilinearLigero, UnivariateLigero};
             use crate::engine::ro::{RoColHash, RoMT};
             let mkc = |sz: Size, polys: Vec<PolySpec>| { let mut c = Cfg::new(sz, polys); c.seed = seed; c };
@@ -1045,7 +1079,7 @@ fn catalogue_inner(prop: &str, t: Tier, seed: u64, out: &mut Vec<Entry>) {
                     out.push(en);
                 }
             }
-            let multis: Vec<(usize, usize, usize)> = if quick { vec![(3, 1, 1), (4, 2, 2), (5, 3, 1)] } else { vec![(3, 1, 1), (4, 2, 2), (5, 3, 1), (6, 3, 2), (8, 2, 3), (7, 4, 1)] };
+            let multis: Vec<(usize, usize, usize)> = if quick { vec![(3, 1, 1), (4, 2, 2), (5, 3, 1), (4, 3, 3)] } else { vec![(3, 1, 1), (4, 2, 2), (5, 3, 1), (6, 3, 2), (8, 2, 3), (7, 4, 1)] };
             for (n, m, k) in multis {
                 for b in [1usize, 1 << 20] {
                     let mut en = e(format!("multi/n{}-pts{}-polys{}-buf{}", n, m, k, b), t, "coefficients of all polynomials, distinct points, eta (!= 0), delta", format!("{} coefficients, {} points, {} polynomials, buffer {}", n, m, k, b), move || c14::multi(n, m, k, b, seed));
